@@ -37,6 +37,12 @@ fn environment(rng: &mut Rng) -> Envir {
     prelude.push_str(&format!(".equ eq_b = 0x{:x}\n", b));
     prelude.push_str(".equ EQ_CHAIN = EqA + eq_b\n");
     prelude.push_str(&format!(".equ eqBig = {}\n", big));
+    // names that begin like a pointer register, a register, a function or the location counter
+    let (zv, xv, rv, lv) = (rng.range(0, 9), rng.range(1, 200), rng.range(0, 70000), rng.range(0, 255));
+    prelude.push_str(&format!(".equ zero_ish = {}\n.equ Xval = {}\n.equ r2d2 = {}\n.equ lowest = {}\n.equ yes = {}\n.equ pc_copy = {}\n", zv, xv, rv, lv, xv + 1, lv + 1));
+    for (k, v) in [("zero_ish", zv), ("xval", xv), ("r2d2", rv), ("lowest", lv), ("yes", xv + 1), ("pc_copy", lv + 1)] {
+        env.insert(k.into(), v);
+    }
     let sv = rng.range(0, 300);
     prelude.push_str(&format!(".set SetV = {}\n", sv));
     prelude.push_str("lbl_first:\n\tnop\n\tnop\nLbl_Second:\n\tnop\n");
@@ -51,7 +57,7 @@ fn environment(rng: &mut Rng) -> Envir {
     env.insert("eq_fwd".into(), fwd);
     env.insert("lbl_after".into(), -1); // patched per program (depends on the number of .dq lines)
     let epilogue = format!(".equ Eq_Fwd = {}\nlbl_after:\n\tnop\n", fwd);
-    let syms = vec!["EqA".into(), "eq_b".into(), "EQ_CHAIN".into(), "eqBig".into(), "lbl_first".into(), "Lbl_Second".into(), "Eq_Fwd".into(), "lbl_after".into()];
+    let syms = vec!["EqA".into(), "eq_b".into(), "EQ_CHAIN".into(), "eqBig".into(), "lbl_first".into(), "Lbl_Second".into(), "Eq_Fwd".into(), "lbl_after".into(), "zero_ish".into(), "Xval".into(), "R2D2".into(), "lowest".into(), "Yes".into(), "PC_copy".into()];
     Envir { prelude, epilogue, env, syms, pc_base: 3 }
 }
 
